@@ -24,7 +24,6 @@ revert_atomic_expiration C16
 revert_walk_snapshot C16
 revert_duplicate_label C15
 revert_syncmap_deleteall_count C18
-revert_prepareread_order C08
 c18_expireall_count_before_lock C18
 c12_sys_limit_ignored C12
 revert_restore_expirations C11
